@@ -134,6 +134,12 @@ func (m *Live) End(c *vnet.Cluster) {
 	if c.Aborted {
 		return
 	}
+	if len(c.Cut) > 0 {
+		// the harness stopped the run (step cap) before the partition healed: there was no GST to judge from
+		m.Inconclusive = true
+		m.inc("runs-ended-before-the-partition-healed")
+		return
+	}
 	gst := c.LastFault()
 	T := int64(c.Cfg.TPB)
 	if c.Cfg.MaxTPB > c.Cfg.TPB {
